@@ -61,6 +61,14 @@ AS_DECLARED = [
 ]
 
 
+SHADOW = [  # a quantified variable with the name of a parameter (the parameter is not visible inside), and next to it
+    ("(and (p ?x) (forall (?y - t1) (and (not (q ?x ?y)))))", "(and (r))"),
+    ("(and (forall (?y - t1) (or (p ?y) (q ?y ?x))) (not (p ?y)))", "(and (p ?y))"),
+    ("(and (p ?y))", "(and (forall (?y - t1) (when (q ?x ?y) (not (q ?x ?y)))) (not (p ?y)))"),
+    ("(and)", "(and (p ?y) (forall (?x - t2) (when (not (p ?x)) (q ?x ?y))))"),
+]
+
+
 def renamings(params):
     fresh = ["?u", "?v", "?k"]
     out = [("identity", {p: p for p in params}), ("fresh", {p: f for p, f in zip(params, fresh)})]
@@ -76,6 +84,10 @@ def renamings(params):
         out.append(("partial", {**{p: p for p in params}, params[-1]: "?u"}))
     if len(params) >= 3:
         out.append(("chain3", {params[0]: params[1], params[1]: params[2], params[2]: "?u"}))
+    # onto the name a quantifier of the corpus binds (?z): the bound variable must not capture the parameter
+    out.append(("onto-bound-name", {**{p: p for p in params}, params[0]: "?z"}))
+    if len(params) >= 2:
+        out.append(("chain-through-bound-name", {params[0]: "?z", params[1]: params[0], **{p: p for p in params[2:]}}))
     # the same maps with their entries listed in the opposite order (a map is a map, however it was built)
     for kind, ren in list(out):
         if len(ren) >= 2 and kind in ("fresh", "perm", "chain"):
@@ -103,6 +115,8 @@ def cases(tier):
             progs.append(q)
     for pre, eff in TWINS:
         progs.append(vdom.program("xy", pre, eff, ["twins"]))
+    for pre, eff in SHADOW:
+        progs.append(vdom.program("xy", pre, eff, ["shadow-param"]))
     # parameters named like the variables of the :predicates / :functions declarations (?a ?b): terms spelled exactly as
     # declared, several times in one action
     for pre, eff in AS_DECLARED:
